@@ -188,6 +188,94 @@ def run_crash_part(ctx):
     return judge(ctx, traces, "SQLite: a connection dies at every statement/commit boundary of every call, a survivor goes on")
 
 
+INIT_HISTORY = [
+    {"a": "create_study", "name": "A", "dirs": [0]},
+    {"a": "create_trial", "s": 1, "tm": {"has": 0}},
+    {"a": "set_param", "t": 1, "name": "x", "v": 3, "d": {"c": "float", "g": 0, "k": 0}},
+    {"a": "set_iv", "t": 1, "step": "0", "v": 2},
+    {"a": "set_trial_ua", "t": 1, "key": "k1", "v": 1},
+    {"a": "set_state", "t": 1, "state": "COMPLETE", "values": [2]},
+    {"a": "get_all_trials", "s": 1, "states": ["ALL"], "dc": 1, "as_list": 0},
+    {"a": "get_best_trial", "s": 1},
+]
+
+
+def _init_crash_task(k):
+    """The FIRST opener of a new SQLite database dies just before its k-th SQL statement (schema creation, version rows);
+    a second process then opens the same file and must find a usable storage (k = 0: dry run, returns the statement count)."""
+    common.use_repo()
+    import threading
+
+    import sqlalchemy
+    from optuna.storages import RDBStorage
+
+    wd = tempfile.mkdtemp(prefix="c05i-", dir=os.environ.get("VERIF_SCRATCH_BASE", "/var/tmp"))
+    url = f"sqlite:///{wd}/db.sqlite3"
+    count, victim = [0], [None]
+
+    def hook(conn, cursor, statement, parameters, context, executemany):
+        if threading.current_thread() is victim[0]:
+            count[0] += 1
+            if count[0] == k:
+                try:
+                    conn.connection.dbapi_connection.close()       # the process is gone: SQLite rolls the open statement back
+                except Exception:
+                    pass
+                raise Killed()
+    sqlalchemy.event.listen(sqlalchemy.engine.Engine, "before_cursor_execute", hook)
+    try:
+        def first_opener():
+            try:
+                RDBStorage(url)
+            except BaseException:  # noqa: Killed, or whatever the dying constructor turns it into
+                pass
+        th = threading.Thread(target=first_opener)
+        victim[0] = th
+        th.start()
+        th.join()
+        if k == 0:
+            return {"statements": count[0]}
+        try:
+            st = RDBStorage(url)
+        except Exception as e:  # the second opener cannot even construct the storage: an observation
+            return {"config": "rdb-init-crash", "hid": f"first-opener-dies-before-statement-{k}",
+                    "ev": [{"a": "create_study", "name": "A", "dirs": [0], "p": 0,
+                            "ret": {"k": "err", "v": f"Unexpected:{type(e).__name__}:{str(e)[:100]}"}}],
+                    "replay": {"family": "rdb-init-crash", "k": k}}
+        ev = sd.Replayer(st).run(INIT_HISTORY, with_post=True)
+        st.remove_session()
+        st.engine.dispose()
+        return {"config": "rdb-init-crash", "hid": f"first-opener-dies-before-statement-{k}", "ev": ev,
+                "replay": {"family": "rdb-init-crash", "k": k}}
+    finally:
+        sqlalchemy.event.remove(sqlalchemy.engine.Engine, "before_cursor_execute", hook)
+        shutil.rmtree(wd, ignore_errors=True)
+
+
+def run_init_crash_part(ctx):
+    n = _init_crash_task(0)["statements"]
+    if n < 10:
+        raise tlc.MachineryError(f"schema creation issued only {n} statements: the hook does not see them")
+    with cf.ProcessPoolExecutor(max_workers=16) as ex:
+        traces = list(ex.map(_init_crash_task, range(1, n + 1)))
+    for i, t in enumerate(traces):
+        t["tid"] = i + 1
+        ctx.count_case(["rdb-init-crash", t["hid"]], nontrivial=True)
+    v = tlc.validate("StorageTrace", "StorageTrace", [{"tid": t["tid"], "ev": t["ev"]} for t in traces], shards=4, timeout=900)
+    ctx.validated(v, f"SQLite: the first opener dies before each of its {n} statements, a second opener uses the database")
+    ctx.notes["rdb_init_crash_points"] = n
+    for tid in sorted(v.rejected):
+        t = traces[tid - 1]
+        i = v.rejected[tid]["reached"]
+        ev = t["ev"][i - 1] if 1 <= i <= len(t["ev"]) else None
+        ctx.violation(f"SQLite, {t['hid']}: the next opener's call #{i} "
+                      f"{json.dumps({k: x for k, x in (ev or {}).items() if k != 'post'})[:300]} is not a step of the Storage contract "
+                      f"(the database a dead first opener left behind is not usable)", {"replay": t["replay"]})
+        if len(ctx.violations) >= 4:
+            break
+    return v
+
+
 def concurrent_cas(t):
     """two workers' set_state calls on the same trial overlap in time (shape of recorded finding K1)"""
     open_calls = {}
@@ -315,6 +403,14 @@ def run_part(ctx):
 
 
 def replay(ctx, data):
+    if data.get("replay", {}).get("family") == "rdb-init-crash":
+        t = _init_crash_task(data["replay"]["k"])
+        t["tid"] = 1
+        v = tlc.validate("StorageTrace", "StorageTrace", [{"tid": 1, "ev": t["ev"]}])
+        ctx.validated(v, "replay (first opener dies)")
+        if v.rejected:
+            ctx.violation(f"SQLite, {t['hid']}: the database a dead first opener left behind is not usable", {"replay": t["replay"]})
+        return
     from . import c03
 
     r = data["replay"]
